@@ -57,6 +57,15 @@ def default_stubs():
         '_ZSt9terminatev': lambda a: '__verif_abort()',
         '__cxa_pure_virtual': lambda a: '__verif_abort()',
         're:^_ZTH': lambda a: '(void)0',
+        # libstdc++ std::__introsort_loop(first, last, depth, cmp) only acts on ranges longer than _S_threshold = 16 elements
+        # (while (last - first > 16) ...); for shorter ranges it returns at once and __final_insertion_sort does the sorting.
+        # Its recursion + nested loops make cbmc's symbolic execution explode, so it is replaced by exactly that precondition.
+        # std::vector growth beyond its capacity: classic_scan reserves max_threads*hp_count first, so reaching a reallocation is an error
+        # that the solver reports; not expanding it keeps symbolic execution out of the relocation loops
+        're:_M_realloc_insert': lambda a: '__verif_abort_msg("std::vector reallocation reached (capacity was reserved)")',
+        # std::sort(first, last[, cmp]) as a call (IR built without inlining): fixed-size sorting network on the first word, see prelude.h
+        're:^_ZSt4sortI': lambda a: '__verif_sort_words(%s, %s, sizeof(*%s))' % (a[0], a[1], a[0]),
+        're:^_ZSt16__introsort_loop': lambda a: '__verif_assert((uintptr_t)%s - (uintptr_t)%s <= 16 * sizeof(*%s), "std::sort on more than 16 elements (introsort phase not modelled)")' % (a[1], a[0], a[0]),
         'sched_yield': lambda a: '0',
         'nanosleep': lambda a: '0',
         '__cxa_atexit': lambda a: '0',
@@ -72,11 +81,13 @@ def default_stubs():
     }
 
 class Emit:
-    def __init__(s, m, roots, nthreads=1, coro=False, shift_check=False, spin=None, nsw_check=False, guard_style=True):
+    def __init__(s, m, roots, nthreads=1, coro=False, shift_check=False, spin=None, nsw_check=False, guard_style=True, atomic_rx=None, abort_rx=None):
         s.m = m; s.names = {}; s.used = set(); s.lit = collections.OrderedDict()
         s.roots = roots; s.stubs = default_stubs(); s.externs = set(); s.asm_seen = set()
         s.yielders = set(); s.nthreads = nthreads; s.tid = None; s.coro = coro
         s.shift_check = shift_check; s.nsw_check = nsw_check; s.guard_style = guard_style
+        s.abort_rx = abort_rx        # calls to functions matching it are not expanded: reaching one is reported as a failure (path ends)
+        s.atomic_rx = atomic_rx      # calls to yield-capable functions matching it run without preemption (one context-switch point before the call)
         s.spin = spin or []          # list of (compiled regex, U)
         s.report = {'functions': {}, 'stubs_used': set(), 'asm': set(), 'spin_loops': [], 'yield_points': 0,
                     'externals': [], 'intrinsics': set()}
@@ -361,7 +372,6 @@ class Emit:
                 if I['op'] in ('call', 'invoke') and I['callee'][0] not in ('glob', 'asm'):
                     rt = I['rty']
                     if isinstance(rt, FnTy): rt = rt.ret
-                    elif isinstance(rt, PtrTy) and isinstance(rt.to, FnTy): rt = rt.to.ret
                     fty = '%s(%s)' % (rt.key(), ','.join(t.key() for (t, _) in I['args']))
                     cands = sorted(n for n in s.bysig.get(fty, ()))
                     I['_cands'] = cands
@@ -612,6 +622,7 @@ class Emit:
         if coro: s.report['functions'][raw_name]['yield_points'] = len([x for x in resume if x[1].startswith('Y')])
         if not coro:
             ps = ', '.join(s.cty(t, s.fnames[n]) for (t, n) in f.params) or 'void'
+            if f.va and f.params: ps += ', ...'
             hdr = s.cty(f.ret, '%s(%s)' % (s.cname(f.name), ps))
             return hdr + '\n{\n  ' + '\n  '.join(decls) + '\n' + '\n'.join(body) + '\n}\n'
         ps = ', '.join(s.cty(t, 'p_' + s.fnames[n]) for (t, n) in f.params) or 'void'
@@ -639,6 +650,7 @@ class Emit:
                 if I['op'] == 'bitcast' and I['a'] == ('reg', r) and isinstance(I['tty'], PtrTy):
                     t = I['tty'].to
                     if isinstance(t, (NamedTy, StructTy)) and isinstance(s.resolve(t), StructTy): return t
+                    if isinstance(t, IntTy) and t.n in (32, 64): return t       # new uint64_t[const]: typed word array
         return None
 
     def cstring_of(s, v):
@@ -656,8 +668,7 @@ class Emit:
 
     def emit_call(s, I, r, rn, declare, body, yld):
         callee = I['callee']; rt = I['rty']
-        if isinstance(rt, FnTy): rt = rt.ret
-        if isinstance(rt, PtrTy) and isinstance(rt.to, FnTy) and callee[0] != 'reg': rt = rt.to.ret
+        if isinstance(rt, FnTy): rt = rt.ret          # `call <fnty> @f` form (varargs); a pointer-to-function type here is the RETURN type
         args = ['0' if isinstance(t, MetaTy) else s.val(t, v) for (t, v) in I['args']]
         def setres(e):
             if rn and not isinstance(rt, VoidTy):
@@ -699,6 +710,11 @@ class Emit:
                 s.report['stubs_used'].add(raw)
                 yld('atomic libcall ' + raw)
                 setres('%s(%s)' % (ATOMIC_LIBCALLS[raw], ', '.join(args))); return
+            if s.abort_rx is not None and s.abort_rx.search(raw):
+                s.report['stubs_used'].add(raw + ' (declared unreachable for this query: reaching it is a reported failure)')
+                body.append('  __verif_abort_msg("call of a function this query declares unreachable: %s");' % raw[:60])
+                if rn and not isinstance(rt, VoidTy): declare(rt, rn, r)
+                return
             if raw in ('_Znwm', '_Znam', 'malloc') and I['args'] and I['args'][0][1][0] == 'int' and r:
                 # typed allocation: the result is (bit)cast to a struct pointer of exactly that size -> malloc(sizeof(struct T)), so that cbmc
                 # creates a field-sensitive typed object instead of a byte array (the size equality is checked by the C compiler)
@@ -719,7 +735,13 @@ class Emit:
                 s.report['stubs_used'].add(raw)
                 setres(st(args) if callable(st) else '%s(%s)' % (st, ', '.join(args))); return
             s.need(n)
-            if s.tid is not None and n in s.yielders:
+            if s.tid is not None and n in s.yielders and s.atomic_rx is not None and s.atomic_rx.search(raw):
+                yld('call of ' + raw[:40] + ' (executed without preemption)')
+                body.append('  __verif_noyield++;')
+                setres('%s(%s)' % (s.cname(n), ', '.join(args)))
+                body.append('  __verif_noyield--;')
+                s.report.setdefault('atomic_calls', []).append(raw)
+            elif s.tid is not None and n in s.yielders:
                 s.ny += 1; i = s.ny; s.coro_resume.append((i, 'C%d' % i))
                 if not s.gs:
                     body.append('  C%d: ;' % i)
@@ -744,6 +766,11 @@ class Emit:
                     body.append('  C%d: ;' % i)
                 first = True
                 for n in cands:
+                    if s.abort_rx is not None and s.abort_rx.search(n[1:].strip('"')):
+                        s.clone_protos_needed = getattr(s, 'clone_protos_needed', set()); s.need(n)
+                        body.append('  %sif ((void*)%s == (void*)%s) { __verif_abort_msg("call of a function this query declares unreachable: %s"); }' % ('' if first else 'else ', fp, s.cname(n), n[1:].strip('"')[:60])); first = False
+                        s.report['stubs_used'].add(n[1:] + ' (declared unreachable for this query: reaching it is a reported failure)')
+                        continue
                     s.need(n)
                     nm = '%s_T%d' % (s.cname(n), s.tid) if n in s.yielders else s.cname(n)
                     body.append('  %sif ((void*)%s == (void*)%s) {' % ('' if first else 'else ', fp, s.cname(n))); first = False
@@ -799,6 +826,7 @@ class Emit:
         if raw.startswith(('llvm.stacksave',)): setres('0'); return
         if raw.startswith(('llvm.stackrestore',)): return
         if raw.startswith('llvm.objectsize'): setres('((uint64_t)-1)'); return
+        if raw.startswith('llvm.is.constant'): setres('((unsigned char)0)'); return      # LLVM itself lowers an unresolved is.constant to false
         raise Unsupported('intrinsic ' + raw)
 
     # ---------------- driver
@@ -831,7 +859,6 @@ class Emit:
                         else:
                             rt = I['rty']
                             if isinstance(rt, FnTy): rt = rt.ret
-                            elif isinstance(rt, PtrTy) and isinstance(rt.to, FnTy): rt = rt.to.ret
                             icalls[n].add('%s(%s)' % (rt.key(), ','.join(t.key() for (t, _) in I['args'])))
         # address-taken functions: any function referenced other than as direct callee.  Conservative: all defined.
         s.bysig = collections.defaultdict(set)
@@ -846,6 +873,20 @@ class Emit:
                 if n in s.yielders: continue
                 if any(c in s.yielders and not s.is_stubbed(c) for c in calls[n]) or any(s.bysig[k] & s.yielders for k in icalls[n]):
                     s.yielders.add(n); ch = True
+        # functions executed inside non-preemptible calls (--atomic): their yield-capable members additionally get a plain, sequential
+        # version under the canonical symbol, so that a pass such as basic_smr::scan costs what it costs in SEQ mode
+        s.plain_needed = set()
+        if s.coro and s.atomic_rx is not None:
+            todo = [n for n in defined if s.atomic_rx.search(n[1:].strip('"'))]
+            while todo:
+                n = todo.pop()
+                if n in s.plain_needed: continue
+                s.plain_needed.add(n)
+                for c in calls[n]:
+                    if c in defined and c not in s.plain_needed: todo.append(c)
+                for k in icalls[n]:
+                    for c in s.bysig[k]:
+                        if c in defined and c not in s.plain_needed: todo.append(c)
         # recursion among yielders is not supported
         if s.coro:
             color = {}
@@ -872,8 +913,11 @@ class Emit:
                         ps = ', '.join(s.cty(t) for (t, _) in f.params) or 'void'
                         for k in tids: s.clone_protos.append(s.cty(f.ret, '%s_T%d(%s)' % (s.cname(n), k, ps)) + ';')
                         # canonical symbol (address identity for function pointers); never executed
-                        s.clone_protos.append(s.cty(f.ret, '%s(%s)' % (s.cname(n), ', '.join(s.cty(t, 'a%d' % i) for i, (t, _) in enumerate(f.params)) or 'void'))
-                                              + ' { __verif_assert(0, "canonical yield-capable function called directly"); __verif_assume(0); }')
+                        if n in s.plain_needed:
+                            fn_c[n] += s.emit_fn(f)        # plain version = the canonical symbol (used inside non-preemptible calls)
+                        else:
+                            s.clone_protos.append(s.cty(f.ret, '%s(%s)' % (s.cname(n), ', '.join(s.cty(t, 'a%d' % i) for i, (t, _) in enumerate(f.params)) or 'void'))
+                                                  + ' { __verif_assert(0, "canonical yield-capable function called directly"); __verif_assume(0); }')
                     else: fn_c[n] = s.emit_fn(f)
                 else: s.externs.add(n)
             elif n in m.globs:
@@ -900,6 +944,7 @@ class Emit:
         for n in fn_c:
             f = m.funcs[n]
             ps = ', '.join(s.cty(t) for (t, _) in f.params) or 'void'
+            if f.va and f.params: ps += ', ...'
             tail.append(s.cty(f.ret, '%s(%s)' % (s.cname(n), ps)) + ';')
         tail += [p for p in s.clone_protos if p.endswith(';')]
         for n in sorted(s.externs):
@@ -920,6 +965,9 @@ class Emit:
             if g.alias: continue
             nm = s.cname(n) + ('[VERIF_NT]' if g.tls else '')
             if g.init is None: s.report['externals'].append(n)
+            if g.init is None and re.match(r'@_ZT[VIS]', n):
+                # vtable / typeinfo of a standard exception class: only referenced on paths that end in abort/throw (reported); dummy storage
+                tail.append('%s; /* EXTERNAL (dummy storage) %s */' % (s.cty(g.ty, nm), n)); continue
             tail.append('%s;' % s.cty(g.ty, nm) if g.init is not None else 'extern %s; /* EXTERNAL */' % s.cty(g.ty, nm))
         for n in glob_order:
             g = m.globs[n]
@@ -998,6 +1046,8 @@ def main():
     ap.add_argument('--coro', action='store_true')
     ap.add_argument('--shift-check', action='store_true')
     ap.add_argument('--coro-style', default='guard', choices=['guard', 'goto'])
+    ap.add_argument('--atomic')
+    ap.add_argument('--abort-fn')
     ap.add_argument('--spin', action='append', default=[])
     ap.add_argument('--report')
     a = ap.parse_args()
@@ -1006,7 +1056,7 @@ def main():
     spin = []
     for sp in a.spin:
         rx, U = sp.rsplit('=', 1); spin.append((re.compile(rx), int(U)))
-    e = Emit(m, a.roots.split(','), nthreads=a.threads, coro=a.coro, shift_check=a.shift_check, spin=spin, guard_style=(a.coro_style == 'guard'))
+    e = Emit(m, a.roots.split(','), nthreads=a.threads, coro=a.coro, shift_check=a.shift_check, spin=spin, guard_style=(a.coro_style == 'guard'), atomic_rx=(re.compile(a.atomic) if a.atomic else None), abort_rx=(re.compile(a.abort_fn) if a.abort_fn else None))
     try:
         c = e.run()
     except (Unsupported, SyntaxError, KeyError, TypeError, ValueError) as ex:
